@@ -13,6 +13,12 @@ FORMS = [
  ("6809", "lda_x", "lda ", ",x", 65535, 1), ("6809", "lda", "lda ", "", 65535, 1), ("6809", "ldx_y", "ldx ", ",y", 65535, 1), ("6809", "jmp", "jmp ", "", 65535, 1),
  ("68000", "jmp", "jmp ", "", 0xffffff, 1), ("68000", "move_abs", "move.w ", ", d0", 0xffffff, 1),
  ("8051", "ljmp", "ljmp ", "", 65535, 1), ("z80", "jp", "jp ", "", 65535, 1),
+ # round 2: sibling mnemonics / addressing modes whose size is chosen by the same pass-1 logic through other table rows
+ ("msp430", "call_imm", "call #", "", 65535, 1), ("msp430", "sub_imm", "sub.w #", ", r8", 65535, 1), ("msp430", "bis_abs_dst", "bis.w r5, &", "", 65535, 1), ("msp430", "cmp_idx", "cmp.w ", "(r9), r10", 65535, 1),
+ ("6502", "sta", "sta ", "", 65535, 1), ("6502", "cmp_x", "cmp ", ",x", 65535, 1), ("6502", "ldy_x", "ldy ", ",x", 65535, 1), ("6502", "adc", "adc ", "", 65535, 1),
+ ("65816", "sta", "sta ", "", 65535, 1), ("6800", "staa", "staa ", "", 65535, 1), ("6800", "ldab", "ldab ", "", 65535, 1),
+ ("stm8", "ldw_x", "ldw X, ", "", 65535, 1), ("6809", "sta", "sta ", "", 65535, 1), ("6809", "ldb_x", "ldb ", ",x", 65535, 1), ("6809", "jsr", "jsr ", "", 65535, 1),
+ ("riscv", "jal", "jal ", "", 0xffff, 1),
 ]
 QUICK = {"msp430", "6502", "stm8", "65816", "6800", "riscv", "6809"}
 
